@@ -10,6 +10,14 @@ func C09(r *ev.Run) {
 	r.SetRule(ruleRuns + "the run contains a fault (silent validators, a healed partition, a restart) and at least one decision after the last fault event; verdict restated as bounded progress in virtual time: after the last fault event every live validator gains each height within 16*2^(v0+s)*TimePerBlock")
 	r.Assume("after the last fault event the network is synchronous (every due message is delivered before timers fire, random order inside a round); ledger sync between connected peers is available")
 	r.Assume("at most F validators are silent; partitions may cut off any subset but heal; one validator (<=F) may restart with empty state")
+	if Only < 0 {
+		// directed scenario of the recorded finding (deterministic KNOWN-FINDING line)
+		live := &mon.Live{}
+		b := DirectedAmnesiacPrimary(live)
+		Report(r, b, live.Viols)
+		Account(r, b, live.Cnt)
+		SampleRun(r, b, "directed scenario "+b.Spec.Profile)
+	}
 	plan := []Plan{{"silent-f", 1500, 60000}, {"partition", 1500, 60000}, {"amnesia", 1000, 40000}}
 	RunPlan(r, plan, func(s Spec) {
 		live := &mon.Live{}
